@@ -252,7 +252,7 @@ def r164(ctx, wr):
                    and 'isinstance' in norm(e.test))
     ok = ok and tests == ['not isinstance(kv.key, (bytes, str))', 'not isinstance(kv.value, (bytes, str))']
     loops = [s for s in iter_child_stmts(f.body) if isinstance(s, ast.For)]
-    ok = ok and len(loops) == 1 and norm(loops[0].iter) == 'obj.key_value_metadata' and \
+    ok = ok and len(loops) == 1 and norm(loops[0].iter) in ('obj.key_value_metadata', 'obj.key_value_metadata or []', 'obj.key_value_metadata or ()') and \
         cfg.dominates(cfg.node_of(loops[0]), cfg.node_of(ret[0])) is not None
     ctx.ob('R16.4', 'writer.write_thrift:key-value-types-validated-before-the-write', ok,
            'TypeError for non-str/bytes keys and values before f.write(obj.to_bytes()): tests %s' % tests, wr.loc(f))
